@@ -517,6 +517,16 @@ func (p *partition) newSubscribeLoop(ctx context.Context, groupID string, sub *s
 				}
 				return
 			}
+			if !reverse && stopOffset != waitForNewMessages && offset > stopOffset {
+				// The stop offset itself is not in the log (e.g. removed by
+				// compaction or retention): the range ends before this message.
+				s := status.New(codes.ResourceExhausted, "Stop offset reached")
+				select {
+				case errCh <- s:
+				case <-cancel:
+				}
+				return
+			}
 			msgValue := m.Value()
 
 			headers := m.Headers()
